@@ -63,21 +63,36 @@ func rx1RowsT(s *cases.Set, c bandcfg.Config, b bandLike, opsTerm, errsTerm stri
 // rx1History: fresh object, part 1 of the history, all rows; part 2 on the same object, all rows again.
 // name: short label for long fixed histories (the replay carries the calls), "" = print the calls.
 func rx1History(s *cases.Set, c bandcfg.Config, name string, part1, part2 []bandcfg.ChanOp, kind string) {
+	rx1HistoryMode(s, c, name, part1, part2, kind, false)
+}
+
+// getters = true: every other getter of the Band interface (GetCFList for all versions, the index
+// lists, LinkADR helpers, look-ups by frequency ...) is called after every call of the history;
+// getters must not change the object (the case - and the model - are those of the plain history).
+func rx1HistoryMode(s *cases.Set, c bandcfg.Config, name string, part1, part2 []bandcfg.ChanOp, kind string, getters bool) {
 	b, err := c.New()
 	if err != nil {
 		return
+	}
+	apply := bandcfg.ApplyChanOps
+	if getters {
+		apply = bandcfg.ApplyChanOpsTouching
+		bandcfg.TouchGetters(b)
 	}
 	label := name
 	if label == "" {
 		label = bandcfg.ChanOpsKey(part1)
 	}
-	errs := bandcfg.ApplyChanOps(b, part1)
+	if getters {
+		label = "getters-between;" + label
+	}
+	errs := apply(b, part1)
 	rx1Rows(s, c, b, part1, errs, label, kind)
 	if len(part2) == 0 {
 		return
 	}
 	all := append(append([]bandcfg.ChanOp{}, part1...), part2...)
-	errs = append(errs, bandcfg.ApplyChanOps(b, part2)...)
+	errs = append(errs, apply(b, part2)...)
 	if name == "" {
 		label += ";then:" + bandcfg.ChanOpsKey(part2)
 	} else {
@@ -130,6 +145,9 @@ func rx1Histories(s *cases.Set, r *cq.RNG, thorough bool, cfgs []bandcfg.Config)
 		// first channel off before the first lookup (every later channel moves one position up in
 		// the enabled list); then on again and the last one off
 		rx1History(s, c, "", []bandcfg.ChanOp{D(0)}, []bandcfg.ChanOp{E(0), D(nch - 1)}, "rx1-channel-after-history")
+		if !big || main {
+			rx1HistoryMode(s, c, "", []bandcfg.ChanOp{D(1)}, []bandcfg.ChanOp{E(1), D(0)}, "rx1-channel-after-history-with-getters", true)
+		}
 		if extra {
 			dup := base[nch/2]
 			// a default frequency a second time with another DR range, then a new frequency; then the
@@ -137,6 +155,21 @@ func rx1Histories(s *cases.Set, r *cq.RNG, thorough bool, cfgs []bandcfg.Config)
 			rx1History(s, c, "", []bandcfg.ChanOp{A(dup, top, top), A(fresh(5), lo0, hi0)}, []bandcfg.ChanOp{D(nch / 2), A(fresh(6), lo0, hi0)}, "rx1-channel-after-history")
 			// a new frequency twice (different DR ranges), another new one, a default one again
 			rx1History(s, c, "", []bandcfg.ChanOp{A(fresh(7), lo0, hi0), A(fresh(7), top, top), A(fresh(9), lo0, lo0), A(base[0], hi0, hi0)}, nil, "rx1-channel-after-history")
+			// custom channels in NON-ascending frequency order, every other getter (GetCFList ...) called
+			// after each call; then one more below all of them
+			cfmin, cfmax := lo0, hi0
+			if ch, err := b.GetUplinkChannel(0); err == nil {
+				cfmin, cfmax = ch.MinDR, ch.MaxDR
+			}
+			desc := []bandcfg.ChanOp{A(fresh(9), cfmin, cfmax), A(fresh(7), cfmin, cfmax), A(fresh(8), cfmin, cfmax), A(fresh(6), lo0, lo0)}
+			rx1HistoryMode(s, c, "", desc, []bandcfg.ChanOp{A(fresh(5), cfmin, cfmax), D(nch)}, "rx1-channel-after-history-with-getters", true)
+			rx1HistoryMode(s, c, "", []bandcfg.ChanOp{A(dup, top, top), A(fresh(5), lo0, hi0)}, []bandcfg.ChanOp{D(nch / 2), A(fresh(4), lo0, hi0)}, "rx1-channel-after-history-with-getters", true)
+			// custom channels very close to existing ones (a frequency is a number, not an opaque key):
+			// +-1, +-100, +-500, +-999, +-1000, +-1001 Hz from default and custom channels
+			last := base[nch-1]
+			rx1History(s, c, "", []bandcfg.ChanOp{A(base[0]+1, lo0, hi0), A(base[0]-100, lo0, hi0), A(base[0]+500, lo0, hi0)}, []bandcfg.ChanOp{A(base[0]-1, lo0, hi0), A(base[0]+100, lo0, hi0), A(base[0]-500, lo0, hi0)}, "rx1-channel-close-frequencies")
+			rx1History(s, c, "", []bandcfg.ChanOp{A(last+999, lo0, hi0), A(last-1000, lo0, hi0), A(last+1001, lo0, hi0)}, []bandcfg.ChanOp{A(last-999, lo0, hi0), A(last+1000, lo0, hi0), A(last-1001, lo0, hi0)}, "rx1-channel-close-frequencies")
+			rx1History(s, c, "", []bandcfg.ChanOp{A(fresh(11), lo0, hi0), A(fresh(11)+500, lo0, hi0), A(fresh(11)-1, lo0, hi0), A(fresh(11)+999, top, top)}, []bandcfg.ChanOp{A(fresh(11)+1499, lo0, hi0), A(fresh(11)-1000, lo0, hi0)}, "rx1-channel-close-frequencies")
 		} else if main || thorough {
 			// one refused AddChannel, nothing changes
 			rx1History(s, c, "", []bandcfg.ChanOp{A(fresh(50), lo0, hi0)}, nil, "rx1-channel-after-refused-add")
@@ -171,7 +204,11 @@ func rx1Histories(s *cases.Set, r *cq.RNG, thorough bool, cfgs []bandcfg.Config)
 				}
 			}
 			p2 := bandcfg.RandomChanOps(r, f1, runs, extra, n1, 1+r.Intn(4))
-			rx1History(s, c, "", p1, p2, "rx1-channel-after-history")
+			if k%2 == 1 || n == 1 && c.Index%2 == 1 {
+				rx1HistoryMode(s, c, "", p1, p2, "rx1-channel-after-history-with-getters", true)
+			} else {
+				rx1History(s, c, "", p1, p2, "rx1-channel-after-history")
+			}
 		}
 	}
 }
